@@ -200,36 +200,144 @@ def make_config(cfg, extra=None):
     return Config(overrides=over)
 
 
+def observe(r, exc, res, echo):
+    """canonical view of one Runner.run on a capturing runner (call inside the patched environment)"""
+    from invoke.runners import Promise, Result
+    obs = {}
+    if exc is None and r is not None and hasattr(r, "opts"):
+        opts = {k: canon(r.opts[k]) for k in OPTS}
+        obs["res"] = {
+            "opts": opts, "timeout": canon(r.opts["timeout"]),
+            "out": canon(r.streams["out"]), "err": canon(r.streams["err"]), "in": canon(r.streams["in"]),
+            "pty": canon(r.using_pty), "watchers": canon(r.watchers),
+            "extra_opts": sorted(k for k in r.opts if k not in OPTS and k != "timeout"),
+        }
+    obs.update({
+        "exc": exc, "started": r.started if r is not None else None, "echo": echo if echo else None,
+        "kind": "raised" if exc else ("promise" if isinstance(res, Promise) else
+                                      "result" if isinstance(res, Result) else
+                                      "none" if res is None else "other"),
+    })
+    return obs
+
+
 def run_opts(case):
     from invoke import Context
-    from invoke.runners import Promise, Result
     Cap = capturing_class()
     Cap.instances = []
     ctx = Context(make_config(case["config"]))
     r = Cap(ctx)
     kwargs = {k: to_py(v) for k, v in case["kwargs"].items()}
     buf = io.StringIO()
-    exc, res, obs = None, None, {}
+    exc, res = None, None
     with mock.patch.dict(os.environ, case["parent"], clear=True), contextlib.redirect_stdout(buf):
         try:
             res = r.run(case["command"], **kwargs)
         except Exception as e:
             exc = type(e).__name__
-        if exc is None:
-            opts = {k: canon(r.opts[k]) for k in OPTS}
-            obs["res"] = {
-                "opts": opts, "timeout": canon(r.opts["timeout"]),
-                "out": canon(r.streams["out"]), "err": canon(r.streams["err"]), "in": canon(r.streams["in"]),
-                "pty": canon(r.using_pty), "watchers": canon(r.watchers),
-                "extra_opts": sorted(k for k in r.opts if k not in OPTS and k != "timeout"),
-            }
-    echo = buf.getvalue()
-    obs.update({
-        "exc": exc, "started": r.started, "echo": echo if echo else None,
-        "kind": "raised" if exc else ("promise" if isinstance(res, Promise) else
-                                      "result" if isinstance(res, Result) else
-                                      "none" if res is None else "other"),
-    })
+        return observe(r, exc, res, buf.getvalue())
+
+
+SHORT = {"warn_only": "-w", "pty": "-p", "echo": "-e", "dry": "-R", "timeout": "-T", "config": "-f"}
+LONG = {"warn_only": "--warn-only", "pty": "--pty", "echo": "--echo", "dry": "--dry",
+        "timeout": "--command-timeout", "config": "--config", "hide": "--hide",
+        "no_dedupe": "--no-dedupe", "prompt_pw": "--prompt-for-sudo-password"}
+_TMP = {}
+_CLI = {}
+
+
+def tmpdir():
+    if "d" not in _TMP:
+        import tempfile
+        _TMP["d"] = tempfile.mkdtemp(prefix="verif-c15-")
+    return _TMP["d"]
+
+
+def run_cli(case):
+    """the real Program: parse argv, update_config, execute a task whose body is c.run(...)"""
+    import json as _json
+    from invoke import Collection, Config, Program, task
+    Cap = capturing_class()
+    Cap.instances = []
+    lower = case["lower"]
+    where = lower.get("where", {})
+    levels = {"defaults": {}, "collection": {}, "runtime": {}}
+    for k, v in lower.get("run", {}).items():
+        levels[where.get(k, "collection")].setdefault("run", {})[k] = v
+    if "timeout" in lower:
+        levels[where.get("timeout", "collection")].setdefault("timeouts", {})["command"] = lower["timeout"]
+    d = tmpdir()
+    rt_path = os.path.join(d, "rt-%d.json" % case.get("n", 0))
+    with open(rt_path, "w") as f:
+        _json.dump({sec: {k: (v["dict"] if isinstance(v, dict) and "dict" in v else v) for k, v in body.items()}
+                    for sec, body in levels["runtime"].items()}, f)
+    decoy = os.path.join(d, "decoy.json")
+    with open(decoy, "w") as f:
+        _json.dump({"run": {"shell": "/decoy", "echo_format": "DECOY {command}"}, "timeouts": {"command": 77}}, f)
+    use_f, env_rt = case["args"].get("config"), case.get("env_runtime")
+    parent = dict(case["parent"])
+    if env_rt:
+        parent["INVOKE_RUNTIME_CONFIG"] = decoy if use_f else rt_path
+    argv = ["inv"] + [rt_path if t == "@RT" else t for t in case["before"]] + ["t"] + \
+        [rt_path if t == "@RT" else t for t in case["after"]]
+    rec = {}
+    kwargs = {k: to_py(v) for k, v in case["kwargs"].items()}
+    command = case["command"]
+
+    def body(c):
+        try:
+            rec["res"] = c.run(command, **kwargs)
+        except Exception as e:
+            rec["exc"] = type(e).__name__
+    _CLI["body"] = body
+    coll_cfg = {sec: {k: to_py(v) for k, v in b.items()} for sec, b in levels["collection"].items()}
+    _CLI["coll_cfg"] = coll_cfg
+    loaded = bool(case["args"].get("no_dedupe")) or case.get("loaded")
+    if loaded:
+        # --no-dedupe exists only for programs that load their collection themselves
+        with open(os.path.join(d, "vtasks.py"), "w") as f:
+            f.write("from invoke import Collection, task\nfrom harness.props import c15 as H\n\n"
+                    "@task\ndef t(c):\n    H._CLI['body'](c)\n\n"
+                    "ns = Collection(t)\nif H._CLI['coll_cfg']:\n    ns.configure(H._CLI['coll_cfg'])\n")
+        argv = argv[:1] + ["-r", d, "-c", "vtasks"] + argv[1:]
+        ns = None
+    else:
+        t = task(body, name="t")
+        ns = Collection(t)
+        if coll_cfg:
+            ns.configure(coll_cfg)
+    dflt = levels["defaults"]
+
+    class Cfg(Config):
+        @staticmethod
+        def global_defaults():
+            g = Config.global_defaults()
+            g["runners"]["local"] = Cap
+            for k, v in dflt.get("run", {}).items():
+                g["run"][k] = to_py(v)
+            if "timeouts" in dflt:
+                g["timeouts"]["command"] = dflt["timeouts"]["command"]
+            return g
+
+    prog = Program(namespace=ns, config_class=Cfg) if ns is not None else Program(config_class=Cfg)
+    buf = io.StringIO()
+    outer = None
+    with mock.patch.dict(os.environ, parent, clear=True), contextlib.redirect_stdout(buf), \
+            contextlib.redirect_stderr(io.StringIO()), mock.patch("getpass.getpass", lambda prompt="": "typed"):
+        try:
+            prog.run(argv, exit=False)
+        except BaseException as e:
+            outer = type(e).__name__
+        r = Cap.instances[-1] if Cap.instances else None
+        obs = observe(r, rec.get("exc"), rec.get("res"), buf.getvalue())
+    cfg = getattr(prog, "config", None)
+    over = getattr(cfg, "_overrides", None)
+    obs["overrides"] = over if isinstance(over, dict) else {"<missing>": 1}
+    obs["runtime"] = getattr(cfg, "_runtime_path", None)
+    obs["outer"] = outer
+    obs["env_var"] = parent.get("INVOKE_RUNTIME_CONFIG")
+    obs["rt_path"] = rt_path
+    obs["ran"] = bool(rec)
     return obs
 
 
@@ -452,6 +560,57 @@ class C15(Prop):
         return {"kind": "ctx", "config": {"run": run, "sudo": sudo}, "parent": rng.choice(PARENTS),
                 "prog": self.gen_prog(rng, rng.choice([1, 2, 3, 4]))}
 
+    def gen_cli(self, rng, n=0):
+        a, before, after = {}, [], []
+
+        def place(tokens, may_follow=True):
+            (after if may_follow and rng.random() < 0.4 else before).append(tokens)
+        for name in ("warn_only", "pty", "echo", "dry"):
+            if rng.random() < 0.4:
+                a[name] = True
+                place([rng.choice([SHORT[name], LONG[name]])])
+        if rng.random() < 0.4:
+            a["hide"] = rng.choice(["out", "both", "err", "stdout", "bogus", ""])
+            place(["--hide", a["hide"]] if rng.random() < 0.6 or a["hide"] == "" else ["--hide=" + a["hide"]])
+        if rng.random() < 0.2:
+            a["no_dedupe"] = True
+            place(["--no-dedupe"], False)
+        if rng.random() < 0.4:
+            a["timeout"] = rng.choice([5, 0, 12, 3])
+            place([rng.choice(["-T", "--command-timeout"]), str(a["timeout"])])
+        if rng.random() < 0.15:
+            a["prompt_pw"] = True
+            place(["--prompt-for-sudo-password"], False)
+        if rng.random() < 0.4:
+            a["config"] = True
+            place([rng.choice(["-f", "--config"]), "@RT"], False)
+        env_rt = rng.random() < 0.4
+        rng.shuffle(before)
+        rng.shuffle(after)
+        lower = {"run": {}, "where": {}}
+        places = ["defaults", "collection"] + (["runtime", "runtime"] if (a.get("config") or env_rt) else [])
+        pools = {"echo": [True, False], "warn": [True, False], "pty": [True, False], "dry": [True, False],
+                 "hide": ["out", "both", True, False, "err"], "shell": ["/bin/sh", "zsh"],
+                 "replace_env": [True, False], "env": ENVS, "echo_format": ["RUN {command}!", "{command}"]}
+        for o in rng.sample(sorted(pools), rng.choice([0, 1, 2, 3, 5])):
+            lower["run"][o] = rng.choice(pools[o])
+            lower["where"][o] = rng.choice(places)
+        if rng.random() < 0.35:
+            lower["timeout"] = rng.choice([9, 20])
+            lower["where"]["timeout"] = rng.choice(places)
+        kwargs = {}
+        for o in rng.sample(["echo", "warn", "pty", "dry", "hide", "shell", "env", "asynchronous", "out_stream"],
+                            rng.choice([0, 0, 1, 2, 3])):
+            kwargs[o] = rng.choice(POOL[o] + [None])
+        t = rng.random()
+        if t < 0.25:
+            kwargs["timeout"] = rng.choice([None, 3, 7])
+        if rng.random() < 0.04:
+            kwargs["bogus"] = 1
+        return {"kind": "cli", "n": n, "loaded": rng.random() < 0.15, "args": a, "before": [t for g in before for t in g],
+                "after": [t for g in after for t in g], "lower": lower, "env_runtime": env_rt,
+                "kwargs": kwargs, "command": rng.choice(["x", "make it"]), "parent": rng.choice(PARENTS)}
+
     def interaction_table(self):
         hide = [None, ("kw", True), ("kw", "both"), ("kw", False), ("cfg", True), ("kw", "bogus")]
         echo = [None, ("kw", True), ("cfg", True), ("cfgT+kwF", None)]
@@ -485,7 +644,10 @@ class C15(Prop):
         yield from self.interaction_table()
         n = max(0, n - 1152)
         for i in range(n):
-            yield self.gen_ctx(rng) if i % 3 == 0 else self.gen_opts(rng)
+            if i % 4 == 1:
+                yield self.gen_cli(rng, i)
+            else:
+                yield self.gen_ctx(rng) if i % 3 == 0 else self.gen_opts(rng)
 
     def enumerate_small(self, tier):
         # every option x every placement x two values (pairwise with one other configured option)
@@ -525,9 +687,53 @@ class C15(Prop):
 
     # ---- implementation ----------------------------------------------------
     def run_impl(self, case):
+        if case["kind"] == "cli":
+            return run_cli(case)
         return run_opts(case) if case["kind"] == "opts" else run_ctx(case)
 
+    def teardown(self):
+        if "d" in _TMP:
+            import shutil
+            shutil.rmtree(_TMP.pop("d"), ignore_errors=True)
+
+    def outcome_term(self, obs):
+        exc = ct.opt(ct.err(obs["exc"]) if obs["exc"] else None)
+        if obs.get("res"):
+            r = obs["res"]
+            full = ct.lst([ct.pair(COQ_OPT[k], oval(r["opts"][k])) for k in OPTS])
+            res = "(Some (mkRes (total_table %s) %s %s %s %s %s %s))" % (
+                full, oval(r["timeout"]), oval(r["out"]), oval(r["err"]), oval(r["in"]),
+                oval(r["pty"]), oval(r["watchers"]))
+        else:
+            res = "None"
+        return "(mkOut %s %s %s %s %s)" % (exc, started_term(obs["started"]),
+                                           ct.opt(ct.s(obs["echo"]) if obs["echo"] is not None else None),
+                                           res, KIND.get(obs["kind"], "RRaised"))
+
+    def cli_term(self, case, obs):
+        a = case["args"]
+        args = "(mkArgs %s %s %s %s %s %s %s %s %s)" % (
+            ct.b(bool(a.get("warn_only"))), ct.b(bool(a.get("pty"))),
+            ct.opt(ct.s(a["hide"]) if a.get("hide") is not None else None),
+            ct.b(bool(a.get("echo"))), ct.b(bool(a.get("dry"))), ct.b(bool(a.get("no_dedupe"))),
+            ct.opt(ct.z(a["timeout"]) if a.get("timeout") is not None else None),
+            ct.opt(ct.s("typed") if a.get("prompt_pw") else None),
+            ct.opt(ct.s(obs["rt_path"]) if a.get("config") else None))
+        lower = "(mkCfg %s %s)" % (table(case["lower"].get("run", {})), oval(case["lower"].get("timeout")))
+        if not obs["ran"] or obs["outer"]:
+            # the program did not get as far as the task body: report it as such
+            out = "(mkOut (Some EOther) None None None RRaised)"
+        else:
+            out = self.outcome_term(obs)
+        return "(CCli %s %s %s %s %s %s %s %s %s)" % (
+            args, lower, ct.opt(ct.s(obs["env_var"]) if obs["env_var"] is not None else None),
+            envterm(dict(case["parent"], **({"INVOKE_RUNTIME_CONFIG": obs["env_var"]} if obs["env_var"] else {}))),
+            ct.s(case["command"]), kwterm(case["kwargs"]), ct.tree(obs["overrides"]),
+            ct.opt(ct.s(obs["runtime"]) if obs["runtime"] is not None else None), out)
+
     def to_coq(self, case, obs):
+        if case["kind"] == "cli":
+            return self.cli_term(case, obs)
         if case["kind"] == "opts":
             kwt = kwterm(case["kwargs"])
             exc = ct.opt(ct.err(obs["exc"]) if obs["exc"] else None)
@@ -556,6 +762,13 @@ class C15(Prop):
         return "(CCtx %s %s %s %s %s)" % (cc, ct.lst([stmt_term(x) for x in case["prog"]]), calls, final, raised)
 
     def nontrivial(self, case, obs):
+        if case["kind"] == "cli":
+            fed = {"warn_only": "warn", "pty": "pty", "echo": "echo", "dry": "dry", "hide": "hide",
+                   "timeout": "timeout"}
+            given = [fed[k] for k in case["args"] if k in fed]
+            return any(g in case["kwargs"] or g in case["lower"].get("run", {}) or
+                       (g == "timeout" and "timeout" in case["lower"]) for g in given) or \
+                bool(case["args"].get("config") or case.get("env_runtime"))
         if case["kind"] == "opts":
             both = any(k in case["config"].get("run", {}) for k in case["kwargs"])
             inter = any(k in case["kwargs"] or k in case["config"].get("run", {})
@@ -575,6 +788,15 @@ class C15(Prop):
         return depth(case["prog"], 0) >= 2
 
     def classify(self, case, obs):
+        if case["kind"] == "cli":
+            tag = "cli/%dflags" % min(4, len(case["args"]))
+            if case["after"]:
+                tag += "/after-task"
+            if case["args"].get("config") or case.get("env_runtime"):
+                tag += "/runtime"
+            if not obs["ran"]:
+                tag += "/not-run"
+            return tag
         if case["kind"] == "opts":
             return "opts/" + (obs["exc"] or obs["kind"]) + ("/echo" if obs["echo"] else "")
         kinds = sorted({(st[1] if len(st) > 1 else "boom") for st in walk(case["prog"]) if st[0] == "raise"})
@@ -592,6 +814,27 @@ class C15(Prop):
         return None
 
     def shrink_candidates(self, case):
+        if case["kind"] == "cli":
+            for k in list(case["kwargs"]):
+                kw = dict(case["kwargs"])
+                del kw[k]
+                yield dict(case, kwargs=kw)
+            lo = case["lower"]
+            for k in list(lo.get("run", {})):
+                r2 = dict(lo["run"])
+                del r2[k]
+                yield dict(case, lower=dict(lo, run=r2))
+            if "timeout" in lo:
+                yield dict(case, lower={k: v for k, v in lo.items() if k != "timeout"})
+            if case["after"]:
+                yield dict(case, before=case["before"] + case["after"], after=[])
+            if case.get("env_runtime"):
+                yield dict(case, env_runtime=False,
+                           lower=dict(lo, where={k: ("collection" if w == "runtime" and not case["args"].get("config")
+                                                     else w) for k, w in lo.get("where", {}).items()}))
+            if case["parent"]:
+                yield dict(case, parent={})
+            return
         if case["kind"] == "opts":
             for k in list(case["kwargs"]):
                 kw = dict(case["kwargs"])
@@ -639,8 +882,11 @@ class C15(Prop):
         return [sudo_password_table(), real_env_checks()]
 
     def mutate(self, case, rng):
-        for _ in range(40):
-            yield self.gen_opts(rng) if case["kind"] == "opts" else self.gen_ctx(rng)
+        for i in range(40):
+            if case["kind"] == "cli":
+                yield self.gen_cli(rng, 900000 + i)
+            else:
+                yield self.gen_opts(rng) if case["kind"] == "opts" else self.gen_ctx(rng)
 
 
 def sudo_password_table():
